@@ -358,8 +358,9 @@ func tcpAborts(c *fw.Ctx) {
 
 func init() {
 	fw.Register(&fw.Property{
-		ID:  "C02",
-		Run: run,
+		ID:    "C02",
+		Level: "fault_enumeration",
+		Run:   run,
 		Replay: func(c *fw.Ctx, w json.RawMessage) {
 			var probe struct {
 				Case *faultCase `json:"case"`
